@@ -28,10 +28,11 @@ Definition corr_avail : Z := 9223372036854775807.
 Definition bytes_eqb := Store.bytes_eqb.
 
 (* ------------------------------------------------------------------ decoding *)
-Inductive damage := DTrunc (k : nat) | DSet (b : bytes) | DPatch (off : nat) (b : bytes).
+Inductive damage := DTrunc (k : nat) | DSet (b : bytes) | DPatch (off : nat) (b : bytes)
+                  | DXor (off : nat) (mask : Z).
 
 Record runspec := mk_run {
-  r_src : src; r_pre : option (list step); r_post : list step; r_crash : bool; r_mode : Canon.mode;
+  r_src : src; r_pre : option (list step); r_post : list step; r_crash : bool; r_xmode : xmode;
   r_cfg : option cfg; r_damage : option damage
 }.
 Inductive namespec :=
@@ -74,17 +75,25 @@ Definition dec_damage (j : J) : option (option damage) :=
   | JL [JS t; a; b] =>
       if tag_is t "patch" then
         match dec_nat a, jbytes b with Some o, Some x => Some (Some (DPatch o x)) | _, _ => None end
+      else if tag_is t "xor" then
+        match dec_nat a, b with Some o, JI m => Some (Some (DXor o m)) | _, _ => None end
       else None
   | _ => None
   end.
 Definition dec_opt_steps (j : J) : option (option (list step)) :=
   match j with JN => Some None | _ => option_map Some (dec_steps j) end.
+(* null = Sequential | n = Parallel{partitions: Some n} | ["par", threads] = Parallel{partitions: None} *)
+Definition dec_xmode (j : J) : option xmode :=
+  match j with
+  | JN => Some XSeq
+  | JL [JS t; _] => if tag_is t "par" then Some (XPar None) else None
+  | _ => option_map (fun n => XPar (Some n)) (dec_nat j)
+  end.
 Definition dec_run (j : J) : option runspec :=
   match j with
   | JL [js; jpre; jpost; JB crash; jm; jc; jd] =>
-      match dec_src js, dec_opt_steps jpre, dec_steps jpost, dec_mode jm, dec_cfg jc, dec_damage jd with
-      | Some s, Some pre, Some post, Some m, Some c, Some d =>
-          Some (mk_run s pre post crash (match m with None => MSeq | Some n => MPar n end) c d)
+      match dec_src js, dec_opt_steps jpre, dec_steps jpost, dec_xmode jm, dec_cfg jc, dec_damage jd with
+      | Some s, Some pre, Some post, Some m, Some c, Some d => Some (mk_run s pre post crash m c d)
       | _, _, _, _, _, _ => None
       end
   | _ => None
@@ -100,11 +109,16 @@ Definition dec_namespec (j : J) : option namespec :=
   end.
 Definition dec_seed (j : J) : option (namespec * bytes) :=
   match j with
-  | JL [JL [JS t; jr; JI ts]; JL [JI idx; JI parts; JI total; jn; jm; JI pc]] =>
+  | JL [JL [JS t; jr; JI ts]; JL [JI idx; JI parts; jtotal; jn; jm; JI pc]] =>
       if tag_is t "state" then
-        match dec_nat jr, jbytes jn, jbytes jm with
-        | Some r, Some n, Some m => Some (NState r ts idx parts total n m pc, [])
-        | _, _, _ => None
+        match dec_nat jr, jbytes jn, jbytes jm,
+              (match jtotal with
+               | JI z => Some z
+               | JS m => if tag_is m "max" then Some 18446744073709551615 else None
+               | _ => None
+               end) with
+        | Some r, Some n, Some m, Some total => Some (NState r ts idx parts total n m pc, [])
+        | _, _, _, _ => None
         end
       else None
   | JL [jn; jb] => match dec_namespec jn, jbytes jb with Some n, Some b => Some (n, b) | _, _ => None end
@@ -153,13 +167,15 @@ Definition dec_obs' (j : J) : option obs :=
   | _ => dec_obs j
   end.
 
-Record runobs := mk_obs { o_out : obs; o_plain : obs; o_len : nat; o_listing : option (list centry) }.
+Record runobs := mk_obs { o_out : obs; o_plain : obs; o_len : nat; o_listing : option (list centry);
+                          o_sugg : option nat;    (* build_plan(..).suggested_partitions *)
+                          o_default : nat         (* Runner::default().default_partitions *) }.
 Definition dec_runobs (j : J) : option runobs :=
   match j with
-  | JL [jo; jp; jl; jls] =>
-      match dec_obs' jo, dec_obs' jp, dec_nat jl, dec_listing jls with
-      | Some o, Some p, Some l, Some ls => Some (mk_obs o p l ls)
-      | _, _, _, _ => None
+  | JL [jo; jp; jl; jls; jsg; jdf] =>
+      match dec_obs' jo, dec_obs' jp, dec_nat jl, dec_listing jls, dec_mode jsg, dec_nat jdf with
+      | Some o, Some p, Some l, Some ls, Some sg, Some df => Some (mk_obs o p l ls sg df)
+      | _, _, _, _, _, _ => None
       end
   | _ => None
   end.
@@ -190,7 +206,12 @@ Definition run_chain (r : runspec) : list node := optimise (cs_chain (compile_ru
 Definition run_term (r : runspec) : tag := cs_tag (compile_run r).
 Definition run_steps (r : runspec) : list step :=
   match r_pre r with Some p => p ++ r_post r | None => r_post r end.
-Definition xmode_of (m : Canon.mode) : xmode := match m with MSeq => XSeq | MPar n => XPar n end.
+(* the engine mode with the partition count the runner resolves *)
+Definition cmode (r : runspec) (ob : runobs) : Canon.mode :=
+  match r_xmode r with
+  | XSeq => MSeq
+  | XPar p => MPar (resolve_parts (o_sugg ob) (o_default ob) p)
+  end.
 
 (* SHA-256: the real digests the harness supplies for the pipeline-id strings; any other string (the
    checksums inside files, which the model only ever compares with its own) gets a 32-byte value *)
@@ -315,6 +336,10 @@ Definition damaged_content (dm : damage) (old : bytes) : bytes :=
   | DTrunc k => firstn k old
   | DSet b => b
   | DPatch off b => patch_at off b old
+  | DXor off m => firstn off old ++ match skipn off old with
+                                    | [] => []
+                                    | x :: r => Z.lxor x m :: r
+                                    end
   end.
 Definition apply_damage (pid : bytes) (dm : option damage) (fs : option dir) (damaged : list bytes)
   : option dir * list bytes :=
@@ -331,11 +356,11 @@ Definition apply_damage (pid : bytes) (dm : option damage) (fs : option dir) (da
   end.
 
 (* ---- one run of the model ---- *)
-Definition model_obs (r : runspec) (o : outcome (list val)) : obs :=
+Definition model_obs (r : runspec) (m : Canon.mode) (o : outcome (list val)) : obs :=
   match o with
   | Ok rows =>
       let steps := run_steps r in
-      if minmax_panics (S (steps_size steps)) (r_mode r) (r_src r) [] steps then OPanic else OOk rows
+      if minmax_panics (S (steps_size steps)) m (r_src r) [] steps then OPanic else OOk rows
   | _ => obs_of o
   end.
 
@@ -360,20 +385,22 @@ Record mstate := mk_ms {
 Definition model_step (H : bytes -> bytes) (st : mstate) (ro : runspec * runobs) : mstate :=
   let '(r, ob) := ro in
   let chain := run_chain r in
-  let mode := xmode_of (r_mode r) in
-  let pid := run_pid H mode chain in
+  let mode := r_xmode r in
+  let pid := run_pid H mode (o_sugg ob) (o_default ob) chain in
   let hints := hints_of pid (ms_prev st) (o_listing ob) in
   let '(res, fs') := run_collect id_sh Store.dir_names H corr_avail corr_pct
-                                 (clock_of (ms_idx st) hints) mode (r_cfg r) (ms_fs st)
+                                 (clock_of (ms_idx st) hints) mode (o_sugg ob) (o_default ob)
+                                 (r_cfg r) (ms_fs st)
                                  (run_term r) chain in
   let lst := option_map (mlisting H (ms_damaged st)) fs' in
   let '(fs'', dmg) := apply_damage pid (r_damage r) fs' (ms_damaged st) in
-  mk_ms fs'' dmg (o_listing ob) (ms_outs st ++ [model_obs r res]) (ms_listings st ++ [lst])
+  mk_ms fs'' dmg (o_listing ob) (ms_outs st ++ [model_obs r (cmode r ob) res]) (ms_listings st ++ [lst])
         (S (ms_idx st)).
 
 Definition run_model (H : bytes -> bytes) (seeds : option (list (namespec * bytes)))
            (ros : list (runspec * runobs)) (l0 : option (list centry)) : mstate :=
-  let pids := map (fun ro => run_pid H (xmode_of (r_mode (fst ro))) (run_chain (fst ro))) ros in
+  let pids := map (fun ro => run_pid H (r_xmode (fst ro)) (o_sugg (snd ro)) (o_default (snd ro))
+                                     (run_chain (fst ro))) ros in
   let fs0 := option_map (seed_dir H pids) seeds in
   fold_left (model_step H)
             ros (mk_ms fs0 [] l0 [] [option_map (mlisting H []) fs0] 0%nat).
@@ -432,7 +459,7 @@ Fixpoint prop_runs (tab : list (bytes * bytes)) (prev : option (list centry))
         not_hang (o_out ob) && not_hang (o_plain ob) && obs_agree exact (o_plain ob) (o_out ob) in
       let dir_ok :=
         if cfg_enabled (r_cfg r) then
-          match obs_pid tab (o_len ob) (r_mode r) with
+          match obs_pid tab (o_len ob) (cmode r ob) with
           | None => false
           | Some pid =>
               is_some (o_listing ob)
